@@ -24,10 +24,7 @@ func zzSeq() uint64 {
 }
 
 func zzKT() keyType {
-	if vpNondetBool() {
-		return keyTypeVal
-	}
-	return keyTypeDel
+	return keyType(vpIteU64(vpNondetBool(), uint64(keyTypeVal), uint64(keyTypeDel)))
 }
 
 func zzSign(x int) int {
